@@ -103,6 +103,9 @@ def analyze_accumulator(in_model, x, verbose=False):
         isinstance(layer, QDense)):
       weights = layer.get_weights()
       k = weights[0]
+      if isinstance(layer, QDepthwiseConv2D):
+        # (kh, kw, channels, depth_multiplier) -> one slice per output channel
+        k = np.reshape(k, k.shape[:-2] + (-1,))
       if layer.use_bias:
         b = weights[1]
       else:
@@ -110,7 +113,8 @@ def analyze_accumulator(in_model, x, verbose=False):
 
       all_bits = []
       nbits = []
-      for i in range(k.shape[1]):
+      # one entry per output channel (the last kernel axis)
+      for i in range(k.shape[-1]):
         # compute sum of positive weights
         npp = np.sum(k[..., i] * (k[..., i] > 0)) + (b[i] > 0) * b[i]
 
